@@ -80,6 +80,16 @@ def gen_document(rng, path: str, *, hostile_ids: bool = False, stem_marker: floa
         p.setConstant(True)
         p.setValue(round(rng.uniform(0.3, 2.0), 3) if stem_marker is None or i else stem_marker)
         params.append(pid)
+    if stem_marker is None and rng.random() < 0.3:
+        # constants of other magnitudes (per-molecule rate constants, 1/N_A, large capacities); each is used by one mass-action reaction
+        p = m.createParameter()
+        p.setId("ktiny")
+        p.setConstant(True)
+        p.setValue(rng.choice([2.5e-17, 1.66e-24, 3.3e-13, 4.5678912e-7, 1e6, 6.022e23]))
+        feats.add("parameter_of_unusual_magnitude")
+        unusual = "ktiny"
+    else:
+        unusual = None
     # function definitions (argument order deliberately not alphabetical)
     fds = []
     if rng.random() < 0.7:
@@ -207,6 +217,8 @@ def gen_document(rng, path: str, *, hostile_ids: bool = False, stem_marker: floa
         s0 = subs[0]
         k = rng.choice(params)
         kind = rng.choice(["ma", "fd", "piecewise", "power", "transcendental", "rule", "local", "time", "power_tower", "real_exponents"])
+        if unusual is not None and j == 0:
+            kind = "unusual_magnitude"
         if kind == "fd" and fds:
             name, ar = rng.choice(fds)
             formula = f"{name}({s0}, {k}, {rng.choice(params)})" if ar == 3 else f"{name}({s0}, {k})"
@@ -228,6 +240,8 @@ def gen_document(rng, path: str, *, hostile_ids: bool = False, stem_marker: floa
             else:
                 formula = f"{k} * (({s0} - {other})^2)^0.5 + 0.125 * (({other} - 1.2)^2)^1.5"
             feats.add("power_of_a_power_with_sign_changing_base")
+        elif kind == "unusual_magnitude":
+            formula = f"{unusual} * {s0}" + (f" * {subs[1]}" if len(subs) > 1 else "")
         elif kind == "real_exponents":
             # kinetic orders written as real numbers, including the order 1.0, in the middle of a product
             other = rng.choice(species)
